@@ -49,6 +49,14 @@ func runHistory(r *Runner, format string, start string, ops []string, idx int, l
 		}
 		return newRemote(id)
 	}
+	// request B is signed by somebody else: another key, another key type, another chain
+	idB := getIdentity("rsa2048-0", 3)
+	mkSignerB := func() signature.Signer {
+		if local {
+			return newLocal(idB)
+		}
+		return newRemote(idB)
+	}
 	now := baseTime().Add(-time.Minute)
 	var env signature.Envelope
 	var startAbs any
@@ -112,7 +120,7 @@ func runHistory(r *Runner, format string, start string, ops []string, idx int, l
 				req = baseRequest(mkSigner(), payloadA, signature.SigningSchemeX509, now)
 				a = map[string]any{"op": "sign-good", "msg": map[string]any{"content": 1, "verifies": true, "readable": true}}
 			case "sign-good-B":
-				req = baseRequest(mkSigner(), payloadB, signature.SigningSchemeX509SigningAuthority, now)
+				req = baseRequest(mkSignerB(), payloadB, signature.SigningSchemeX509SigningAuthority, now)
 				a = map[string]any{"op": "sign-good", "msg": map[string]any{"content": 2, "verifies": true, "readable": true}}
 			case "sign-early":
 				req = baseRequest(mkSigner(), "", signature.SigningSchemeX509, now)
